@@ -18,10 +18,26 @@ from vx.strs import SStr, SChar
 
 PID = 'C01'
 _LD = None
+class NormVFS(vfsmod.VFS):
+    """one file, however its path is spelled ('Model.dat', './Model.dat')"""
+    def open(self, name, mode='r', *a, **kw):
+        return vfsmod.VFS.open(self, os.path.normpath(name) if isinstance(name, str) else name, mode, *a, **kw)
+    def exists(self, name):
+        return vfsmod.VFS.exists(self, os.path.normpath(name) if isinstance(name, str) else name)
+
+
+def xp_name(fname):
+    """oracle: the companion file of data file fname (same directory, same base name, extension
+    in the case of the base name's first letter)"""
+    d, f = os.path.split(os.path.normpath(fname))
+    base = os.path.splitext(f)[0]
+    return os.path.join(d, base + ('.PDAT' if base[0].isupper() else '.pdat'))
+
+
 def _load():
     global _LD
     if _LD is None:
-        fs = vfsmod.VFS()
+        fs = NormVFS()
         _LD = (loader.load(['t2data'], vfs=fs), fs)
     return _LD
 
@@ -96,7 +112,7 @@ class B(object):
 
     def name(self, base, pattern, previous):
         nm = sym_name(self.c, base, pattern)
-        if isinstance(nm, SStr):
+        if isinstance(nm, SStr) and len(pattern) == 5 and previous is not None:
             for prev in previous:
                 self.c.add(z3.Not(z3.And(*[x == y for x, y in zip(fixed_name(codes_of(nm)), fixed_name(codes_of(prev)))])))
         return nm
@@ -106,12 +122,15 @@ class B(object):
 
 
 def sym_name(c, base, pattern):
-    """pattern: string over 'L' (letter), 'D' (digit), 'B' (digit or blank), or a literal char"""
+    """pattern: string over 'L' (letter), 'U' (upper-case letter), 'V' (upper-case letter or blank),
+    'D' (digit), 'B' (digit or blank), or a literal char"""
     cells = []
     for k, ch in enumerate(pattern):
-        if ch in 'LDB':
+        if ch in 'LDBUV':
             e = z3.Int('%s.%d' % (base, k))
             if ch == 'L': c.add(z3.Or(z3.And(e >= 65, e <= 90), z3.And(e >= 97, e <= 122)))
+            elif ch == 'U': c.add(z3.And(e >= 65, e <= 90))
+            elif ch == 'V': c.add(z3.Or(z3.And(e >= 65, e <= 90), e == 32))
             elif ch == 'D': c.add(z3.And(e >= 48, e <= 57))
             else: c.add(z3.Or(z3.And(e >= 48, e <= 57), e == 32))
             cells.append(SChar(e))
@@ -178,9 +197,9 @@ class Cmp(object):
             if len(ca) != 5 or len(cb) != 5:
                 self.ob(False, '%s: 5-character name expected' % where); return
             self.ob(z3.And(*[x == y for x, y in zip(cb, fixed_name(ca))]), '%s: same name (repaired form)' % where); return
-        if strip:
-            a2 = a.rstrip() if isinstance(a, str) else a
-            b2 = b.rstrip() if isinstance(b, str) else b
+        if strip == 'both': a2, b2 = a.strip(), b.strip(); r = (a2 == b2)
+        elif strip:
+            a2, b2 = a.rstrip(), b.rstrip()
             r = (a2 == b2)
         else: r = (a == b)
         self.ob(r, '%s: same text' % where)
@@ -195,7 +214,32 @@ class Cmp(object):
             for i, (a, b) in enumerate(zip(A, B)): self.real(a, b, '%s[%d]' % (where, i), exact)
 
 
-from harness.c01_model import FORMATS, build as model_build, compare
+from harness.c01_model import FORMATS, build as model_build, compare, add_sections, grid_info, fortran_files
+
+
+class Dig(object):
+    """symbolic digit / sign cells for the Fortran-style writer of c01_model"""
+    def __call__(self, name, n, first_nonzero):
+        return [strs.dom_char('fd.%s.%d' % (name, k), '123456789' if (k == 0 and first_nonzero) else '0123456789') for k in range(n)]
+    def sign(self, name):
+        return strs.dom_char('fd.%s' % name, ' -')
+
+
+def fortran_value(spec):
+    """oracle (independent of the engine's reader): sign * digits * 10**exp"""
+    n = len(spec['digits'])
+    M = z3.Sum(*[(strs.cell_code(cc) - 48) * 10 ** (n - 1 - i) for i, cc in enumerate(spec['digits'])]) if n > 1 else strs.cell_code(spec['digits'][0]) - 48
+    v = z3.ToReal(M) * z3.RealVal(Fraction(10) ** spec['exp'])
+    if spec['sign'] is not None: v = z3.If(strs.cell_code(spec['sign']) == 45, -v, v)
+    return v
+
+
+def same_sections(ob, before, after, where):
+    """the sections an object had when it was read are the sections of the object read from the
+    file it wrote (before: _sections noted before write() touched them)"""
+    for s in sorted(set(before) ^ set(after)):
+        ob(False, '%ssections %s: %s by writing and reading' % (where, s, 'lost' if s in before else 'added'))
+    ob(list(before) == list(after), '%ssections: same sections in the same order %r vs %r' % (where, before, after))
 
 
 def rstrip_line(l):
@@ -204,6 +248,19 @@ def rstrip_line(l):
     while cells and isinstance(cells[-1], str) and cells[-1] in ' \n': cells.pop()
     # symbolic trailing cells (token padding never trails: numbers are right justified)
     return cells
+
+
+def sections_equal(f1, f2, keywords):
+    """[(label, formula)]: equality up to trailing blanks of two data files, one obligation per
+    section (lines grouped by the keyword lines of the first file)"""
+    if len(f1) != len(f2): return [('lines', z3.BoolVal(False))]
+    groups, cur = [], ['title', []]
+    for a, b in zip(f1, f2):
+        if isinstance(a, str) and a[:5].strip() in keywords and not (cur[0] == 'SHORT' and a[:5] in ('ELEME', 'CONNE', 'GENER')):
+            groups.append(cur); cur = [a[:5].strip(), []]
+        cur[1].append((a, b))
+    groups.append(cur)
+    return [(k, files_equal([a for a, _ in ls], [b for _, b in ls], True)) for k, ls in groups if ls]
 
 
 def files_equal(f1, f2, upto_blanks):
@@ -231,7 +288,10 @@ def task_shape(shape, second=0, seed=0):
         fs.files.clear()
         b = B(c, T.t2data_format_specification, T.t2data_extra_precision_format_specification)
         b.first_nonzero = not shape.get('momop_general')
-        dat, info = model_build(b, T, ld.t2grids, ld.mulgrids.np, shape)
+        fortran = shape.get('kind') == 'fortran'
+        if fortran: dat, info = None, {}
+        else: dat, info = model_build(b, T, ld.t2grids, ld.mulgrids.np, shape)
+        info['provider'] = b
         exact_var = None
         if shape.get('xp') and shape.get('echo', True):
             # A value echoed in the main file (7 or fewer decimals) AND written to the
@@ -289,6 +349,7 @@ def task_shape(shape, second=0, seed=0):
                     if r2 == 'unsat':
                         key = 'rewrite/xp-echo-double-rounding'
                         what = 'extra precision echoed: a value is printed with 8 decimals in the .pdat file and fewer in the main file; after a read the main file of the next write can differ in the last digit'
+                if label.startswith('sections-listed'): what = '%s [%s]' % (label.split(' (missing')[0], tag)
                 failures.append(dict(key=key, what=what, replay=dict(shape=shape, model=model_dump(fl['model']))))
 
         def model_dump(m):
@@ -314,18 +375,33 @@ def task_shape(shape, second=0, seed=0):
                                      replay=dict(shape=shape, model=model_dump(fl['model']))))
                 raise Raised()
         try:
+            if fortran: return body_fortran(ob, flush, guarded)
             return body(dat, info, meshfile, kw, ob, flush, guarded, model_dump)
         except Raised:
             return 'checked'
 
     def body(dat, info, meshfile, kw, ob, flush, guarded, model_dump):
         c = sym.ctx()
-        guarded('first write', lambda: dat.write('m1.dat', meshfile, **kw))
+        b = info['provider']
+        F1 = shape.get('fname', 'm1.dat')          # name the first file is written under
+        R1 = shape.get('read_as', F1)              # spelling of the same path it is read under
+        ext, ext_when = shape.get('extend'), shape.get('extend_when', 'read')
+        def listed(obj, what):
+            # every kind of data the object holds is a section of the file just written
+            miss = [s for s in obj.present_sections if s not in obj._sections
+                    and not (s in obj.extra_precision and not obj.echo_extra_precision)]
+            ob(not miss, 'sections-listed: after %s every kind of data held is a listed section (missing %r)' % (what, miss))
+        guarded('first write', lambda: dat.write(F1, meshfile, **kw))
+        if ext and ext_when == 'write':
+            # the object that has been written is given data of further section kinds and written again
+            add_sections(b, T, ld.t2grids, ld.mulgrids.np, dat, shape, ext, grid_info(dat))
+            guarded('write after extending', lambda: dat.write(F1, meshfile, **kw))
+        listed(dat, 'the first write')
         sections_written = list(dat._sections)
-        dat2 = guarded('first read', lambda: T.t2data('m1.dat', meshfile))
+        dat2 = guarded('first read', lambda: T.t2data(R1, meshfile))
         cmp = Cmp(c, ob)
         if not samples:
-            samples.append(dict(shape=tag, sections=sections_written, file=[repr(l)[:120] for l in fs.files['m1.dat'][:6]]))
+            samples.append(dict(shape=tag, sections=sections_written, file=[repr(l)[:120] for l in fs.files[F1][:6]]))
         compare(cmp, dat, dat2, shape)
         flush()
         # the re-read object is written as it is: which sections are extra precision and whether
@@ -334,18 +410,60 @@ def task_shape(shape, second=0, seed=0):
             ob(list(dat2.extra_precision) == list(dat.extra_precision), 'xp-state: extra-precision sections recovered on reading')
             ob(bool(dat2.echo_extra_precision) == bool(dat.echo_extra_precision), 'xp-state: echo flag recovered on reading')
             flush()
+        extended = bool(ext and ext_when == 'read')
+        sec_read = list(dat2._sections)
+        if extended:
+            # the object that has been read is given data of further section kinds, then written
+            add_sections(b, T, ld.t2grids, ld.mulgrids.np, dat2, shape, ext, grid_info(dat2))
         guarded('second write', lambda: dat2.write('m2.dat', 'MESH2' if meshfile else ''))
-        ob(files_equal(fs.files['m1.dat'], fs.files['m2.dat'], True), 'rewrite: second data file equals the first up to trailing blanks')
-        if meshfile: ob(files_equal(fs.files['MESH'], fs.files['MESH2'], True), 'rewrite-mesh: second MESH file equals the first up to trailing blanks')
-        if shape.get('xp'): ob(files_equal(fs.files['m1.pdat'], fs.files['m2.pdat'], True), 'rewrite-xp: second extra-precision file equals the first')
+        listed(dat2, 'the second write')
+        if not extended:
+            for k, f in sections_equal(fs.files[F1], fs.files['m2.dat'], T.t2data_sections + ['MESHM']):
+                ob(f, 'rewrite %s: second data file equals the first up to trailing blanks' % k)
+            if meshfile: ob(files_equal(fs.files['MESH'], fs.files['MESH2'], True), 'rewrite-mesh: second MESH file equals the first up to trailing blanks')
+            if shape.get('xp'):
+                p1 = xp_name(F1)
+                ob(p1 in fs.files, 'xp-name: the companion file is named after the base name of the data file')
+                if p1 in fs.files: ob(files_equal(fs.files[p1], fs.files['m2.pdat'], True) if 'm2.pdat' in fs.files else False, 'rewrite-xp: second extra-precision file equals the first')
         if shape.get('cycles', 3) >= 3:
             dat3 = guarded('second read', lambda: T.t2data('m2.dat', 'MESH2' if meshfile else ''))
             flush()
-            compare(cmp, dat2, dat3, shape, exact=True, where='cycle2 ')
+            if not extended: same_sections(ob, sec_read, dat3._sections, 'cycle2 ')
+            compare(cmp, dat2, dat3, shape, exact=not extended, where='cycle2 ')
             flush()
             guarded('third write', lambda: dat3.write('m3.dat', 'MESH3' if meshfile else ''))
-            ob(files_equal(fs.files['m2.dat'], fs.files['m3.dat'], False), 'cycle: third data file equals the second byte for byte')
+            ob(files_equal(fs.files['m2.dat'], fs.files['m3.dat'], extended), 'cycle: third data file equals the second' + ('' if extended else ' byte for byte'))
             if meshfile: ob(files_equal(fs.files['MESH2'], fs.files['MESH3'], False), 'cycle-mesh: third MESH file equals the second')
+        flush()
+        return 'checked'
+
+    def body_fortran(ob, flush, guarded):
+        """files printed by an independent Fortran-style writer (symbolic digits) are read with the
+        Fortran read functions: every number printed is held by the object; then write / read / write"""
+        c = sym.ctx()
+        files, V, Gt = fortran_files(Dig(), shape)
+        for name, lines in files.items(): fs.files[name] = [strs._mk(l) for l in lines]
+        mesh = 'FMESH' if shape.get('meshfile') else ''
+        if not samples: samples.append(dict(shape=tag, file=[repr(l)[:100] for l in fs.files['f.dat'][:4]]))
+        dat2 = guarded('read of fortran-style files', lambda: T.t2data('f.dat', mesh, read_function=T.fortran_read_function))
+        ob(list(dat2._sections) == shape['sections'], 'fortran sections: %r read as %r' % (shape['sections'], dat2._sections))
+        for name in V:
+            try: got = Gt[name](dat2)
+            except Exception: got = None
+            if got is None or isinstance(got, (str, SStr)):
+                ob(False, 'fortran %s: the number printed is held by the object' % name); continue
+            ob(sym.lift_real(got) == fortran_value(V[name]), 'fortran %s: the number printed is held by the object' % name)
+        flush()
+        cmp = Cmp(c, ob)
+        sec_read = list(dat2._sections)
+        guarded('write', lambda: dat2.write('m2.dat', 'MESH2' if mesh else ''))
+        dat3 = guarded('read', lambda: T.t2data('m2.dat', 'MESH2' if mesh else ''))
+        same_sections(ob, sec_read, dat3._sections, 'rewritten ')
+        compare(cmp, dat2, dat3, shape, where='rewritten ')
+        flush()
+        guarded('second write', lambda: dat3.write('m3.dat', 'MESH3' if mesh else ''))
+        ob(files_equal(fs.files['m2.dat'], fs.files['m3.dat'], True), 'rewrite: second data file equals the first up to trailing blanks')
+        if mesh: ob(files_equal(fs.files['MESH2'], fs.files['MESH3'], True), 'rewrite-mesh: second MESH file equals the first up to trailing blanks')
         flush()
         return 'checked'
 
@@ -386,7 +504,45 @@ def shapes(tier):
     add('t2-minc', sections=['PARAM', 'MESHM'], meshmaker='minc', nvol=4)
     add('t2-nogrid-history', sections=['PARAM', 'FOFT', 'COFT', 'GOFT'])
     add('t2-momop', sections=['MOMOP'], momop_general=True, cycles=2)
+    # round 4 ---------------------------------------------------------------------------------
+    # an object that has been read (or written once) is given data of further section kinds
+    add('t2-extend-read', sections=['ROCKS', 'PARAM', 'ELEME', 'CONNE'], nblocks=2, ntimes=2, nselec_lines=1, nselec=3, nincon_vars=2,
+        generators=[dict(ltab=2, enthalpy=True)], extend=['MOMOP', 'START', 'SOLVR', 'TIMES', 'SELEC', 'GENER', 'FOFT', 'COFT', 'GOFT', 'INCON'])
+    add('aut-extend-write', autough2=True, sections=['SIMUL', 'ROCKS', 'PARAM', 'ELEME', 'CONNE'], nblocks=2, ntimes=2, nincon_vars=2,
+        generators=[dict(ltab=1)], extend=['LINEQ', 'MULTI', 'TIMES', 'GENER', 'SHORT', 'INCON', 'INDOM'], extend_when='write', short_freq_lo=0)
+    # files printed by an independent Fortran-style writer, read with the Fortran read functions
+    add('fortran-meshfile', kind='fortran', meshfile=True, sections=['ROCKS', 'PARAM', 'ELEME', 'CONNE'])
+    add('fortran-infile', kind='fortran', sections=['ROCKS', 'PARAM', 'ELEME', 'CONNE'])
+    add('fortran-momop-nomesh', kind='fortran', momop=True, no_mesh=True, sections=['ROCKS', 'PARAM', 'MOMOP'])
+    # None / blank in every optional field (two complementary masks)
+    for m in ('even', 'odd'):
+        add('t2-nones-' + m, nones=m, sections=['ROCKS', 'PARAM', 'SOLVR', 'MULTI', 'TIMES', 'ELEME', 'CONNE', 'MESHM', 'GENER'], nrock=1, nad=[1], nblocks=2,
+            ntimes=2, generators=[dict(ltab=1, hg=True)], meshmaker='xyz', nxyz=2, cycles=2)
+        add('aut-nones-' + m, nones=m, autough2=True, sections=['SIMUL', 'ROCKS', 'PARAM', 'LINEQ', 'MULTI', 'ELEME', 'CONNE', 'GENER'], nrock=1, nad=[1], nblocks=2,
+            generators=[dict(ltab=1, hg=True)], cycles=2)
+    add('t2-none-const-timestep', sections=['PARAM'], const_timestep_none=True, cycles=2)
+    add('t2-none-selec-count', sections=['PARAM', 'SELEC'], selec_count_none=True, nselec=0, cycles=2)
+    add('t2-xyz-del-blank', sections=['PARAM', 'MESHM'], meshmaker='xyz', nxyz=9, xyz_del_none=True, cycles=2)
+    # initial conditions by block name without blocks in the object (mesh from MESHMAKER)
+    add('t2-incon-nogrid', sections=['PARAM', 'MESHM', 'INCON'], meshmaker='xyz', nxyz=2, nincon_vars=2)
+    # extra precision for a subset of the sections / in another order
+    add('aut-xp-eleme-conne', autough2=True, xp=True, xp_sections=['ELEME', 'CONNE'], echo=False, sections=['SIMUL', 'ROCKS', 'PARAM', 'ELEME', 'CONNE'], nrock=1, nad=[0], nblocks=2, cycles=2)
+    add('aut-xp-eleme-rocks', autough2=True, xp=True, xp_sections=['ELEME', 'ROCKS'], echo=False, sections=['SIMUL', 'ROCKS', 'PARAM', 'ELEME', 'CONNE'], nrock=1, nad=[0], nblocks=2, cycles=2)
+    add('aut-xp-gener', autough2=True, xp=True, xp_sections=['GENER'], echo=True, sections=['SIMUL', 'ROCKS', 'PARAM', 'ELEME', 'CONNE', 'GENER'], nrock=1, nad=[0], nblocks=2,
+        generators=[dict(ltab=1)], cycles=2)
+    # the companion file is found however the path of the data file is spelled
+    add('aut-xp-noecho-Name', autough2=True, xp=True, xp_sections=['ROCKS'], echo=False, sections=['SIMUL', 'ROCKS', 'PARAM'], nrock=1, nad=[0], fname='Model.dat', read_as='./Model.dat', cycles=2)
+    # MINC: the text fields with symbolic characters
+    add('t2-minc-dual', sections=['PARAM', 'MESHM'], meshmaker='minc', nvol=2, dual_pattern='UUUUV')
+    # rock names shorter than the field
+    add('t2-short-rockname', sections=['ROCKS', 'PARAM', 'ELEME', 'INDOM'], nrock=1, nad=[0], nblocks=1, rock_names=['SAND'], nindom=2)
+    # lists held in numpy arrays
+    add('t2-times-array', sections=['PARAM', 'TIMES'], ntimes=3, ntimesteps=3, arrays=True, cycles=2)
     if tier == 'thorough':
+        add('t2-extend-write', sections=['ROCKS', 'PARAM', 'ELEME', 'CONNE'], nblocks=2, ntimes=9, nselec_lines=1, nselec=3, nincon_vars=3, extend_when='write',
+            generators=[dict(ltab=5, enthalpy=True)], extend=['NOVER', 'RPCAP', 'MULTI', 'DIFFU', 'TIMES', 'SELEC', 'MESHM', 'GENER', 'FOFT', 'INCON', 'INDOM'], meshmaker='rz2d')
+        add('aut-extend-read', autough2=True, sections=['SIMUL', 'ROCKS', 'PARAM', 'ELEME', 'CONNE'], nblocks=3, ntimes=2, nincon_vars=2,
+            generators=[dict(ltab=1), dict(ltab=3)], extend=['START', 'RPCAP', 'LINEQ', 'MULTI', 'TIMES', 'GENER', 'SHORT', 'INCON', 'INDOM'])
         for n in (0, 1, 3, 4, 5, 7, 8, 9, 12, 13):
             add('t2-lists-%d' % n, sections=['PARAM', 'TIMES', 'MULTI', 'SELEC'], nincons=min(n, 12), ntimes=max(n, 1), ntimesteps=n,
                 nselec_lines=max(1, (n + 7) // 8), nselec=max(n, 1))
